@@ -25,7 +25,7 @@ EXTRA_MODS = ["Capture.Tie"]
 TRUSTED = ["CPython tokenizer/compiler, ast + asttokens token positions, textwrap.dedent, inspect.getsource/findsource: "
            "modelled-not-verified; positions are inputs of the model and compared with the ones the structured text has by construction",
            "behavioural half of C20 (a cells computes what the plain function computes) rests on the (P) oracle, not on a theorem"]
-ASSUMPTIONS = ["texts are ASCII (columns = bytes); the only line boundary is LF (D32)",
+ASSUMPTIONS = ["texts are compared as UTF-8 bytes (the harness converts the character offsets asttokens reports); the only line boundary is LF (D32)",
                "theorems quantify over well-formed structured texts (Capture/Texts.v wf_ftext / wf_ltext / safe_doc)"]
 
 CORPUS = os.path.join(fw.VERIF, "corpus", "C20")
@@ -134,9 +134,10 @@ def ft_from_source(src, row_def, defws, name):
     """generic structured text of a stored (canonical) source"""
     lines = src[:-1].split("\n") if src.endswith("\n") else src.split("\n")
     sl = lambda l: [bool(l.strip(" \t")), l]
-    dl = lines[row_def]
     head = "def" + defws + name
-    assert dl.startswith(head), (dl, head)
+    if row_def >= len(lines) or not lines[row_def].startswith(head):
+        return None
+    dl = lines[row_def]
     return {"ind": "", "lead": [sl(l) for l in lines[:row_def]], "deco": [], "mid": [], "defws": defws, "name": name,
             "sig": dl[len(head):], "rest": [sl(l) for l in lines[row_def + 1:]], "eofnl": src.endswith("\n")}
 
@@ -174,6 +175,25 @@ def gen_ops(rng, has_doc, oneline, cur_name, stats, is_lambda=False):
         else:
             ops.append({"op": "recreate"})
     return ops
+
+
+def gen_redefine(rng, cur_name, stats):
+    """@mx.defcells (no is_cached: D10) on a new def named like the existing cells"""
+    while True:
+        g = G.DefGen(rng, "deco")
+        t, info = g.generate()
+        if info["deco_variant"] not in ("plain", "call_empty"):
+            continue
+        if any(ch in G.render(t) for ch in D32_CHARS) or ("multiline_string" in g.feat and t["ind"]):
+            continue
+        break
+    t["name"] = cur_name
+    text = G.render(t)
+    nl = "" if text.endswith("\n") else "\n"
+    body = ("if True:\n" + text + nl + t["ind"] + "zz_ = 1\n") if t["ind"] else (text + nl + "ZZ_ = 1\n")
+    return {"op": "redefine", "t": t, "info": {k: v for k, v in info.items() if k != "params"}, "file_body": body,
+            "getter": cur_name, "plain": G.plain_text(t), "plain_name": cur_name, "args": g.sample_args(info["params"]),
+            "feat": sorted(g.feat)}
 
 
 def build_def_case(rng, mode, stats):
@@ -215,6 +235,15 @@ def build_def_case(rng, mode, stats):
         name = info.get("given_name")
     has_doc = bool(info.get("doc_lit")) if info["oneline"] else bool(info.get("doc_nlines"))
     case["ops"] = gen_ops(rng, has_doc, info["oneline"], name or t["name"], stats)
+    cur = name or t["name"]
+    for o in case["ops"]:
+        if o["op"] == "rename":
+            cur = o["name"]
+    if is_valid_name(cur) and rng.random() < 0.25:
+        case["ops"].append(gen_redefine(rng, cur, stats))
+        i2 = case["ops"][-1]["info"]
+        hd = bool(i2.get("doc_lit")) if i2["oneline"] else bool(i2.get("doc_nlines"))
+        case["ops"] += [o for o in gen_ops(rng, hd, i2["oneline"], cur, stats) if o["op"] != "rename"][:2]
     return case
 
 
@@ -273,6 +302,7 @@ def build_lam_case(rng, mode, stats):
 # ---- analysis of one result: Coq terms for (T), failures for (P) ---------------------------
 def script_of(case):
     c = {k: v for k, v in case.items() if k not in ("t", "info", "feat", "lt")}
+    c["ops"] = [{k: v for k, v in o.items() if k not in ("t", "info", "feat")} for o in case["ops"]]
     return ("# stand-alone reproducer: feeds this case to the C20 driver\n"
             "import json, subprocess, os\ncase = json.loads(%r)\n"
             "env = dict(os.environ, PYTHONPATH=os.environ.get('MODELX_REPO', '/repo'))\n"
@@ -305,11 +335,13 @@ def analyse(case, res, terms, out):
         raise fw.Broken("generator produced a function that raises: %r %r" % (case.get("plain") or case.get("lam"), exp))
     label = {"case": case.get("text") or case.get("file_body"), "mode": case["mode"]}
 
+    cur = {"exp": exp, "params": res["expected_params"]}
+
     def behaviour(snap, what):
-        if snap.get("values") != exp:
-            pf("%s: values differ from the plain function: %r vs %r" % (what, snap.get("values"), exp))
-        if snap.get("params") != res["expected_params"]:
-            pf("%s: parameters %r != %r" % (what, snap.get("params"), res["expected_params"]))
+        if snap.get("values") != cur["exp"]:
+            pf("%s: values differ from the plain function: %r vs %r" % (what, snap.get("values"), cur["exp"]))
+        if snap.get("params") != cur["params"]:
+            pf("%s: parameters %r != %r" % (what, snap.get("params"), cur["params"]))
 
     if not is_lambda:
         t = case["t"]
@@ -326,6 +358,9 @@ def analyse(case, res, terms, out):
         dp = res["defpos"]
         terms.append((label, "(TDef %s (Some %s) %s %s %s %s %s)" % (
             cft(t), cs(name), cs(res["raw"]), cs(dp["dedent"]), cpos2o(dp["deco"]), cpos3(dp["npos"]), cs(cr["source"]))))
+        if "formula_none" in res:
+            terms.append((dict(label, op="Formula(text)"), "(TDef %s None %s %s %s %s %s)" % (
+                cft(t), cs(res["raw"]), cs(dp["dedent"]), cpos2o(dp["deco"]), cpos3(dp["npos"]), cs(res["formula_none"]))))
         behaviour(cr, "created")
         if "direct" in res and res["direct"] != exp:
             raise fw.Broken("function object and plain text disagree: %r" % (case,))
@@ -408,10 +443,34 @@ def analyse(case, res, terms, out):
             behaviour(snap, "recreated")
             if not is_lambda:
                 tt = ft_from_source(before, row_def, t["defws"], name)
+                if tt is None:
+                    pf("stored text has no 'def %s' on line %d: %r" % (name, row_def + 1, before))
+                    break
                 terms.append((dict(label, op="recreate"), "(TDef %s (Some %s) %s %s None %s %s)" % (
                     cft(tt), cs(name), cs(before), cs(st["defpos"]["dedent"]), cpos3(st["defpos"]["npos"]), cs(snap["source"]))))
             else:
-                terms.append((dict(label, op="recreate"), "(TLamRaw true %s %s %s %s)" % (cs(before), cN(0), cN(len(before)), cs(snap["source"]))))
+                terms.append((dict(label, op="recreate"), "(TLamRaw true %s %s %s %s)" % (cs(before), cN(0), cN(len(before.encode("utf-8"))), cs(snap["source"]))))
+        elif what == "redefine":
+            t, info = op["t"], op["info"]
+            cur["exp"], cur["params"] = st["expected"], st["expected_params"]
+            if any(v[0] != "ok" for v in cur["exp"]):
+                raise fw.Broken("generator produced a function that raises: %r" % (op["plain"],))
+            argsets = op["args"]
+            if not st.get("same_object"):
+                pf("defcells on an existing cells did not return that cells")
+            if snap["name"] != name:
+                pf("redefinition changed the name")
+            behaviour(snap, "redefined")
+            dp = st["defpos"]
+            terms.append((dict(label, op="redefine", text=op["file_body"]), "(TDef %s (Some %s) %s %s %s %s %s)" % (
+                cft(t), cs(name), cs(st["raw"]), cs(dp["dedent"]), cpos2o(dp["deco"]), cpos3(dp["npos"]), cs(snap["source"]))))
+            ev = exec_values(snap["source"], name, globs, argsets)
+            if ev != cur["exp"]:
+                pf("redefined source is not a self-contained definition: %r vs %r" % (ev, cur["exp"]))
+            if G.render(G.canon(t, name)) != snap["source"]:
+                break
+            mirror = G.DocView(G.canon(t, name), info)
+            row_def = len(t["lead"]) + len(t["mid"])
         elif what == "rename":
             new = op["name"]
             if snap["name"] != new or not st.get("in_space"):
@@ -428,6 +487,9 @@ def analyse(case, res, terms, out):
                 if off is None or before[:off[0]] + new + before[off[0] + len(off[1]):] != after:
                     pf("rename changed more than the name token: %r -> %r" % (before, after))
                 tt = ft_from_source(before, row_def, t["defws"], name)
+                if tt is None:
+                    pf("stored text has no 'def %s' on line %d: %r" % (name, row_def + 1, before))
+                    break
                 terms.append((dict(label, op="rename"), "(TRename %s %s %s %s %s)" % (
                     cft(tt), cs(new), cs(before), cpos3(st["defpos"]["npos"]), cs(after))))
             name = new
@@ -445,8 +507,13 @@ def analyse(case, res, terms, out):
             else:
                 if not op["ins"] and snap["doc"] != d:
                     pf("doc %r != %r" % (snap["doc"], d))
-                if op["ins"] and [l.strip() for l in (snap["doc"] or "").split("\n")] != [l.strip() for l in d.split("\n")]:
-                    pf("doc (insert_indents) %r !~ %r" % (snap["doc"], d))
+                if op["ins"]:
+                    # every non-blank continuation line is indented like the body
+                    bind = "" if mirror.oneline else mirror.bindstr
+                    dl_ = d.split("\n")
+                    want_doc = "\n".join([dl_[0]] + [(bind + l if l.strip() else l) for l in dl_[1:]])
+                    if (snap["doc"] or "").rstrip(" \t") != want_doc.rstrip(" \t"):
+                        pf("doc (insert_indents) %r != %r" % (snap["doc"], want_doc))
                 try:
                     if dump_def(after, drop_doc=True) != dump_def(before, drop_doc=True):
                         pf("doc edit changed more than the docstring statement")
@@ -496,14 +563,16 @@ def run(tier, seed, rng):
     for i in range(n):
         kind, mode = plan[rng.randrange(len(plan))]
         cases.append(build_def_case(rng, mode, stats) if kind == "def" else build_lam_case(rng, mode, stats))
-    drv = [{k: v for k, v in c.items() if k not in ("t", "info", "feat", "lt")} for c in cases]
+    drv = [dict({k: v for k, v in c.items() if k not in ("t", "info", "feat", "lt", "ops")},
+                ops=[{k: v for k, v in o.items() if k not in ("t", "info", "feat")} for o in c["ops"]]) for c in cases]
     res = fw.run_driver("capture", drv)
     terms = []
     nviol = 0
     for c, r in zip(cases, res):
         fails = analyse(c, r, terms, out)
         for d in fails[:2]:
-            out.p_failures.append({"case": {k: c.get(k) for k in ("kind", "mode", "text", "file_body", "name", "ops", "globals", "args")},
+            out.p_failures.append({"case": {k: (c.get(k) if k != "ops" else [{a: b for a, b in o.items() if a not in ("t", "info", "feat")} for o in c["ops"]])
+                                            for k in ("kind", "mode", "text", "file_body", "name", "ops", "globals", "args")},
                                    "detail": d, "script": script_of(c)})
     bad = fw.run_coq_cases("C20", ["Capture.Model", "Capture.Texts", "Capture.Tie"], "tcase", "check",
                            [t for _, t in terms], shard=120)
@@ -522,7 +591,7 @@ def run(tier, seed, rng):
         raw = r.get("raw")
         src = r.get("created", {}).get("source")
         if raw is not None and (raw != src or c["ops"]):
-            distinct.add((raw, c.get("name"), json.dumps(c["ops"])))
+            distinct.add((raw, c.get("name"), json.dumps([{k: v for k, v in o.items() if k not in ("t", "info")} for o in c["ops"]])))
         for f in c.get("feat", []):
             feats[f] = feats.get(f, 0) + 1
     out.distinct_nontrivial = len(distinct)
@@ -540,13 +609,15 @@ def run(tier, seed, rng):
             opsd[o["op"]] = opsd.get(o["op"], 0) + 1
     out.distribution = {"cases": len(cases), "corpus": ncorpus, "by_kind": kinds, "edits": opsd, "features": dict(sorted(feats.items())),
                         "filtered": stats, "coq_terms": len(terms)}
-    out.samples = [{k: c.get(k) for k in ("kind", "mode", "text", "file_body", "name", "ops")} for c in cases[ncorpus:ncorpus + 3]]
+    out.samples = [{"kind": c["kind"], "mode": c["mode"], "text": c.get("text"), "file_body": c.get("file_body"), "name": c.get("name"),
+                    "ops": [{k: v for k, v in o.items() if k in ("op", "name", "doc", "ins", "via", "file_body")} for o in c["ops"]]}
+                   for c in cases[ncorpus:ncorpus + 3]]
     out.notes = [
         "the Python tokenizer / compiler are outside the theorems: token positions are inputs of the model; the harness compares the "
         "positions asttokens reports with the ones the structured text has by construction; behaviour (values) rests on (P)",
         "generator avoids the triggers of D30 (doc edit on a one-line body without docstring), D31 (unsafe doc), D32 (CR/FF/... in text), "
         "D33 (multi-line literal in an indented text), D10 (decorator with is_cached on an existing cells); filtered counts in distribution.filtered",
-        "texts are ASCII; function bodies evaluate to ints so that values can be compared by repr",
+        "non-ASCII characters occur in comments and string literals only; function bodies evaluate to ints so that values can be compared by repr",
     ]
     return out
 
